@@ -5,7 +5,9 @@ from .. import core, sysgen, reader, gen
 MODULES = ['DsdVerif.Props.C16']
 GEN_FILES = ['Symbols', 'Grammars']
 THEOREMS = ['Dsd.Symbols.no_unresolved_global', 'Dsd.C16.reader_never_faults', 'Dsd.C16.readLine_never_faults_fresh',
-            'Dsd.C16.typed_lineOK', 'Dsd.C16.resolveKernel_ok', 'Dsd.C16.resolveKernel_total']
+            'Dsd.C16.typed_lineOK', 'Dsd.C16.resolveKernel_ok', 'Dsd.C16.resolveKernel_total',
+            'Dsd.C16.pil_lines_typed', 'Dsd.C16.read_text_faults_only_recursion', 'Dsd.C16.read_text_never_faults',
+            'Dsd.C16.ssw_lines_shape', 'Dsd.PP.run_shape', 'Dsd.PP.parseDoc_shape']
 ASSUMPTIONS = [
     'static part: the global-name reference table of every function / method / lambda / comprehension / class body of the package is '
     'regenerated with symtable by translator/gen.py; a name bound anywhere at module level (incl. inside if/try, via import or import *) '
@@ -14,8 +16,9 @@ ASSUMPTIONS = [
     'documents, random multi-fault documents and random text; the same texts are handed to an unconfigured reader (read_pil_line '
     'after set_io_objects / clear_io_objects) and the module namespaces are inspected in every reader state (import, set, clear, '
     'clear twice) for names that functions reference but that are no longer defined',
-    'reader_never_faults is about the model; its hypotheses (Typed, Name, Forest) describe what the grammar can produce and are '
-    'exercised by the correspondence stream, they are not derived from the grammar by a theorem',
+    'read_text_faults_only_recursion is about the model (Model/Pyparsing + regenerated grammar + Model/Reader); RecursionError on '
+    'deeply nested kernel patterns is a resource limit of CPython (the real parser raises it from about 200 nested loops) and is '
+    'outside the property as read here (DESIGN.md section 8)',
 ]
 MANIFEST = {
     'text': 'Partial. Full (translator-based) for the static clause: no_unresolved_global is decided by the Lean kernel over the symbol '
@@ -25,8 +28,13 @@ MANIFEST = {
             'corruption (15 kinds) of generated valid documents and on multi-fault documents; reader_never_faults proves that reading '
             'ANY document whose lines have the shapes the grammar produces (any length, names other than "" and "*", kernel patterns '
             'within the recursion budget), with any ignore list and slot configuration, into a fresh world never ends in a fault '
-            '(world invariant WOK preserved by every request, by collect, by every readLine branch); C14.failed_read_restores covers '
-            'the state after a failed read. On the real code: only parse '
+            '(world invariant WOK preserved by every request, by collect, by every readLine branch); the shape hypothesis is itself a '
+            'theorem about the parser model: run_shape / parseDoc_shape (input-independent shape soundness of the pyparsing '
+            'interpreter for every grammar term) and pil_lines_typed (whatever text parses, every line has a shape PilLine the reader '
+            'handles), hence read_text_faults_only_recursion: FOR ANY TEXT, slot configuration and ignore list, parse-then-read returns '
+            'the dictionary, a parse error or a declared error, and the only possible fault is the RecursionError of a kernel pattern '
+            'nested deeper than the recursion budget (read_text_never_faults: none at all when the parsed patterns fit the budget); '
+            'C14.failed_read_restores covers the state after a failed read. On the real code: only parse '
             'errors or declared errors escape, ignored reactions do not abort the read, a failed read leaves previously held objects '
             'valid singletons; faults are shrunk to minimal documents. When the symbol theorem breaks, the corpora are driven to the '
             'offending function to obtain a concrete NameError replay.',
